@@ -10,6 +10,7 @@ import (
 	"errors"
 	"fmt"
 	"net/url"
+	"strings"
 	"sync"
 
 	"github.com/AdguardTeam/golibs/netutil/urlutil"
@@ -27,6 +28,7 @@ const (
 	keyShared  = "RedactUserinfo: results of different calls share mutable state (the same object is handed out twice)"
 	keyErrDep  = "RedactUserinfoInURLError: the error text depends on earlier calls, not only on its arguments"
 	keyWrites  = "RedactUserinfo / RedactUserinfoInURLError: a call changes an object returned by an earlier call"
+	keyErrView = "RedactUserinfoInURLError: the text written into an earlier *url.Error changes after a later call (the string is a view of shared storage)"
 )
 
 type valRec struct {
@@ -42,14 +44,24 @@ func ownerCreds() *url.Userinfo { return url.UserPassword("root", "t0p-s3cret") 
 // result of an earlier call.
 type object struct {
 	ptr    *url.URL
-	shadow url.URL       // what ptr must read as: value when it entered the history + its owner's own changes
-	suser  url.Userinfo  // the value of *ptr.User at that time (valid if shadow.User != nil)
-	root   *url.URL      // the pristine input this object derives from (reference for the classes)
+	shadow url.URL      // what ptr must read as: value when it entered the history + its owner's own changes
+	suser  url.Userinfo // the value of *ptr.User at that time (valid if shadow.User != nil)
+	root   *url.URL     // the pristine input this object derives from (reference for the classes)
 	input  bool
+}
+
+// keptErr is a *url.Error a call wrote into, kept by the caller.
+type keptErr struct {
+	e       *url.Error
+	snapURL string // deep copies taken right after the call
+	snapMsg string
+	origURL string // never updated: what the call wrote
+	cls     errRecH
 }
 
 type histSession struct {
 	objs     []*object
+	errs     []*keptErr
 	nIn      int
 	trail    []string
 	failures int
@@ -144,6 +156,32 @@ func (s *histSession) verify(res *vh.Result) {
 			o.resnap() // report once
 		}
 	}
+	s.verifyErrs(res)
+}
+
+// verifyErrs re-reads every kept error: URL field and Error() text.
+func (s *histSession) verifyErrs(res *vh.Result) {
+	for k, ke := range s.errs {
+		if ke.e.URL != ke.snapURL || ke.e.Error() != ke.snapMsg {
+			s.fail(res, keyErrView, "error #%d: URL field read %q (Error() %q) right after its call and reads %q (Error() %q) now",
+				k+1, short(ke.snapURL), short(ke.snapMsg), short(strings.Clone(ke.e.URL)), short(strings.Clone(ke.e.Error())))
+			ke.snapURL, ke.snapMsg = strings.Clone(ke.e.URL), strings.Clone(ke.e.Error()) // report once
+		}
+	}
+}
+
+// errClasses is what every kept error's URL text reads as now: the class it
+// was written with as long as the text is what it was, "other" otherwise.
+func (s *histSession) errClasses() []errRecH {
+	out := []errRecH{}
+	for _, ke := range s.errs {
+		if ke.e.URL == ke.origURL {
+			out = append(out, ke.cls)
+		} else {
+			out = append(out, errRecH{Set: true, Val: valRec{User: "other", Path: "other", Query: "other"}})
+		}
+	}
+	return out
 }
 
 func (s *histSession) classes() []valRec {
@@ -220,6 +258,9 @@ func (s *histSession) call(res *vh.Result, i int) (c callObs) {
 	}
 	if c.fresh {
 		s.add(r, o.root, false)
+	}
+	if c.err.Set {
+		s.errs = append(s.errs, &keptErr{e: e, snapURL: strings.Clone(e.URL), snapMsg: strings.Clone(e.Error()), origURL: strings.Clone(e.URL), cls: c.err})
 	}
 	s.verify(res)
 	return c
@@ -350,15 +391,16 @@ func replayHist(args []string) error {
 }
 
 type histEv struct {
-	Op      string   `json:"op"`
-	N       int      `json:"n"`
-	F       string   `json:"f"`
-	Arg     valRec   `json:"arg"`
-	Alias   bool     `json:"alias"`
-	Fresh   bool     `json:"fresh"`
-	Val     valRec   `json:"val"`
-	Err     errRecH  `json:"err"`
-	Objects []valRec `json:"objects"`
+	Op      string    `json:"op"`
+	N       int       `json:"n"`
+	F       string    `json:"f"`
+	Arg     valRec    `json:"arg"`
+	Alias   bool      `json:"alias"`
+	Fresh   bool      `json:"fresh"`
+	Val     valRec    `json:"val"`
+	Err     errRecH   `json:"err"`
+	Objects []valRec  `json:"objects"`
+	Errs    []errRecH `json:"errs"`
 }
 
 func recordHist(args []string) error {
@@ -392,7 +434,7 @@ func recordHist(args []string) error {
 		if err != nil {
 			return err
 		}
-		tr.Emit(histEv{Op: "reset", Arg: blankVal, Val: blankVal, Err: errRecH{Val: blankVal}, Objects: s.classes()})
+		tr.Emit(histEv{Op: "reset", Arg: blankVal, Val: blankVal, Err: errRecH{Val: blankVal}, Objects: s.classes(), Errs: s.errClasses()})
 		for step := 5 + rng.IntN(25); step > 0 && len(s.objs) < 40; step-- {
 			if rng.IntN(5) < 3 {
 				i := rng.IntN(len(s.objs)) // inputs and earlier results alike
@@ -412,7 +454,7 @@ func recordHist(args []string) error {
 				if !c.ok {
 					break
 				}
-				tr.Emit(histEv{Op: "call", N: i + 1, Arg: c.arg, Alias: c.alias, Fresh: c.fresh, Val: c.val, Err: c.err, Objects: s.classes()})
+				tr.Emit(histEv{Op: "call", N: i + 1, Arg: c.arg, Alias: c.alias, Fresh: c.fresh, Val: c.val, Err: c.err, Objects: s.classes(), Errs: s.errClasses()})
 			} else {
 				k := rng.IntN(len(s.objs))
 				f := []string{"path", "query", "user"}[rng.IntN(3)]
@@ -420,7 +462,7 @@ func recordHist(args []string) error {
 					return err
 				}
 				s.verify(res)
-				tr.Emit(histEv{Op: "mutate", N: k + 1, F: f, Arg: blankVal, Val: blankVal, Err: errRecH{Val: blankVal}, Objects: s.classes()})
+				tr.Emit(histEv{Op: "mutate", N: k + 1, F: f, Arg: blankVal, Val: blankVal, Err: errRecH{Val: blankVal}, Objects: s.classes(), Errs: s.errClasses()})
 			}
 		}
 		if q == 2 {
@@ -443,10 +485,12 @@ func stressHistories(res *vh.Result, nG, iters int) (calls int) {
 		shadow url.URL
 	}
 	type gs struct {
-		s      *histSession
-		held   []heldURL
-		wrong  []string
-		panicv any
+		s          *histSession
+		held       []heldURL
+		errs       []keptErr
+		errChanged int
+		wrong      []string
+		panicv     any
 	}
 	states := make([]gs, nG)
 	for g := range states {
@@ -480,7 +524,18 @@ func stressHistories(res *vh.Result, nG, iters int) (calls int) {
 				e := &url.Error{Op: "Get", URL: text, Err: errors.New("cause")}
 				urlutil.RedactUserinfoInURLError(in, e)
 				if e.URL != wantText && len(st.wrong) < 3 {
-					st.wrong = append(st.wrong, "error text: "+e.URL)
+					st.wrong = append(st.wrong, "error text: "+strings.Clone(e.URL))
+				}
+				// a second URL of this goroutine whose text gets shorter, equally long and longer; the errors are kept
+				in2 := *in
+				in2.Path = "/api/v1/" + strings.Repeat("x", (i*7+g)%40)
+				e2 := &url.Error{Op: "Get", URL: in2.String(), Err: errors.New("cause")}
+				urlutil.RedactUserinfoInURLError(&in2, e2)
+				st.errs = append(st.errs, keptErr{e: e2, snapURL: strings.Clone(e2.URL), snapMsg: strings.Clone(e2.Error())})
+				if len(st.errs) > 1 {
+					if p := &st.errs[len(st.errs)-2]; p.e.URL != p.snapURL {
+						st.errChanged++
+					}
 				}
 				// the owner of r changes it
 				r.Path += "/mut"
@@ -509,6 +564,21 @@ func stressHistories(res *vh.Result, nG, iters int) (calls int) {
 			seen[h.ptr] = g
 			if *h.ptr != h.shadow {
 				res.Mismatch(keyWrites, fmt.Sprintf("under concurrency result #%d of goroutine %d reads %q, its owner left it as %q", k+1, g, short(h.ptr.String()), short(h.shadow.String())), nil)
+				break
+			}
+		}
+		maskedBase := st.s.objs[0].shadow
+		maskedBase.User = url.UserPassword("xxxxx", "xxxxx")
+		for k, ke := range st.errs {
+			want := maskedBase
+			want.Path = "/api/v1/" + strings.Repeat("x", (k*7+g)%40)
+			if ke.snapURL != want.String() {
+				res.Mismatch(keyErrDep, fmt.Sprintf("under concurrency goroutine %d got the error text %q, want %q", g, short(ke.snapURL), short(want.String())), nil)
+				break
+			}
+			if ke.e.URL != ke.snapURL || ke.e.Error() != ke.snapMsg || st.errChanged > 0 {
+				res.Mismatch(keyErrView, fmt.Sprintf("under concurrency error #%d of goroutine %d read %q right after its call and reads %q now (%d seen changing during the run)",
+					k+1, g, short(ke.snapURL), short(strings.Clone(ke.e.URL)), st.errChanged), nil)
 				break
 			}
 		}
